@@ -484,14 +484,49 @@ def grid_stream(ctx, n):
             ctx.disagree(f"C14:grid:secants:{len(shape)}axes", desc, [f1[bad[0]].tolist(), f2[bad[0]].tolist()], [np.round(A[bad[0]], 6).tolist(), np.round(B[bad[0]], 6).tolist()], replay=[desc])
             continue
         # dual of a grid of circles
-        mats = np.array([np.asarray(g.Circle(g.Point(float(rng.randint(-3, 3)), float(rng.randint(-3, 3))), float(rng.randint(1, 4))).array) for _ in range(size)]).reshape(shape + (3, 3))
+        # radii from 4 down to 1/16: small circles are regular conics with a small determinant (no member of the grid is singular)
+        mats = np.array([np.asarray(g.Circle(g.Point(float(rng.randint(-3, 3)), float(rng.randint(-3, 3))), float(rng.choice([1, 2, 3, 4, 0.5, 0.125, 0.0625]))).array) for _ in range(size)]).reshape(shape + (3, 3))
         QC = QuadricCollection(mats)
         d = call_impl(lambda: QC.dual.dual)
         if d[0] != "ok" or not all(proj_close_nn(x, y, 1e-8) for x, y in zip(np.asarray(d[1].array).reshape(size, 3, 3), mats.reshape(size, 3, 3))):
             ctx.disagree(f"C14:grid:dual-dual:{len(shape)}axes", desc + " (grid of circles)", "the grid itself", d[1:3] if d[0] != "ok" else "differs", replay=[desc])
 
 
+def moved_class_stream(ctx, n):
+    """a Circle / Sphere under a map that is NOT a similarity (the image keeps its class but is an ellipse / ellipsoid): the secant
+    through the images of two known points returns exactly those, the tangent at an image point touches"""
+    import geometer as g
+    rng = ctx.rng
+    PYTH = [(3, 4, 5), (-4, 3, 5), (5, 12, 13), (-12, 5, 13), (0, 5, 5), (5, 0, 5), (-3, -4, 5), (4, -3, 5)]
+    for k in range(n):
+        c = (float(rng.randint(-3, 3)), float(rng.randint(-3, 3)))
+        (x1, y1, r1), (x2, y2, r2) = rng.sample([p for p in PYTH if p[2] == 5], 2)
+        C = g.Circle(g.Point(*c), 5.0)
+        P1, P2 = g.Point(c[0] + x1, c[1] + y1), g.Point(c[0] + x2, c[1] + y2)
+        how = k % 3
+        if how == 0:
+            t = g.scaling(2.0, 0.5)
+        elif how == 1:
+            t = g.affine_transform(np.array([[1.0, float(rng.choice([1, 2, -1]))], [0.0, 1.0]]), np.array([float(rng.randint(-2, 2)), 1.0]))
+        else:
+            t = g.Transformation(np.array([[1.0, 0.0, 1.0], [0.0, 2.0, 0.0], [rng.choice([0.125, -0.0625]), 0.0, 1.0]]))
+        desc = f"Circle(centre={c}, r=5) under {np.asarray(t.array).tolist()}: secant through the images of {(x1, y1)} and {(x2, y2)} (relative to the centre)"
+        ctx.case(desc)
+        ctx.count("moved-class:" + ("scaling", "shear", "projective")[how])
+        def run():
+            Ct, Q1, Q2 = t * C, t * P1, t * P2
+            got = Ct.intersect(g.Line(Q1, Q2))
+            tang = Ct.tangent(Q1)
+            return type(Ct).__name__, [np.asarray(x.array) for x in got], [np.asarray(Q1.array), np.asarray(Q2.array)], bool(Ct.is_tangent(tang)), bool(tang.contains(Q1))
+        r = call_impl(run)
+        ok = r[0] == "ok" and len(r[1][1]) == 2 and all(any(proj_close_nn(e, p, 1e-6) for p in r[1][1]) for e in r[1][2]) and r[1][3] and r[1][4]
+        if not ok:
+            ctx.disagree("C14:moved-class:" + ("scaling", "shear", "projective")[how], desc, "the two image points; tangent at the first touches",
+                         r[1:3] if r[0] != "ok" else (r[1][0], [np.round(p, 5).tolist() for p in r[1][1]], r[1][3], r[1][4]), replay=[desc])
+
+
 def correspondence(ctx):
+    moved_class_stream(ctx, ctx.budget(24, 240))
     complex_symmetric_stream(ctx, ctx.budget(40, 400))
     axis_lines_stream(ctx, ctx.budget(25, 250))
     from props import c07
